@@ -168,7 +168,8 @@ def pipeline(job):
         n_drift=len({d["index"] for d in tv["drift"]}),
         samples=[{"template": r["text"], "ctx": r["init"]["ctx"]["id"], "doc": r["final"]["doc"],
                   "opcodes": [e[1] for e in r["events"]][:40]} for r in runs[:2]],
-        families=sorted({c["fam"] for c in cases}), contexts=sorted(contexts.keys()))
+        families=sorted({c["fam"] for c in cases}), contexts=sorted(contexts.keys()),
+        unobs=sorted({u for r in runs for u in r["final"].get("unobs", [])}))
     measure = job.get("measure")
     if measure:
         out["measure"] = measure(runs, consts)
@@ -203,7 +204,7 @@ def run_parts(jobs):
 def collect(chk, results):
     """verdicts and totals from the part summaries"""
     tot = {"states": 0, "generated": 0, "cases": 0, "events": 0, "accepted": 0, "rejected": 0, "trace_states": 0,
-           "opcodes": set(), "mc_cmd": "", "trace_cmd": "", "mc_wall": 0.0, "trace_wall": 0.0, "samples": [], "families": set(),
+           "unobs": set(), "opcodes": set(), "mc_cmd": "", "trace_cmd": "", "mc_wall": 0.0, "trace_wall": 0.0, "samples": [], "families": set(),
            "n_drift": 0}
     drift = []
     for r in results:
@@ -212,6 +213,7 @@ def collect(chk, results):
             tot[k] += r[src]
         tot["rejected"] += len(r["rejected"])
         tot["opcodes"] |= set(r["opcodes"])
+        tot["unobs"] |= set(r.get("unobs", []))
         tot["families"] |= set(r["families"])
         tot["mc_cmd"], tot["trace_cmd"] = r["mc_cmd"], r["trace_cmd"] or tot["trace_cmd"]
         tot["mc_wall"] += r["mc_wall"]
@@ -228,6 +230,9 @@ def collect(chk, results):
                     "template": run["text"]}
             chk.violation(key, rj["clause"], case, {"final": run["final"], "events": run["events"], "rejected_at_event": rj["at"]})
         drift += r["drift"]
+    if tot["unobs"]:          # internals the observation code could not read: design-level binding weakened, never a verdict
+        drift.insert(0, {"what": "interpreter/Context internals not observable (logged as unknown): %s" % sorted(tot["unobs"]), "at": 0,
+                         "template": ""})
     chk.note_drift(drift[:200])
     return tot
 
@@ -258,7 +263,8 @@ def replay_result(case, contexts_job, trace_module, trace_spec, want_tokens=Fals
             "accepted": tv["accepted"], "trace_states": tv["states"], "trace_cmd": tv["cmd"], "trace_wall": tv["wall_s"],
             "rejected": [{"clause": rj["clause"], "at": rj["at"], "run": _slim(runs[0])} for rj in tv["rejected"]],
             "drift": [{"what": d["what"], "at": d["at"], "template": runs[0]["text"][:300]} for d in tv["drift"]],
-            "n_drift": len(tv["drift"][:1]), "samples": [], "families": [case["fam"]], "contexts": [], "runs": runs}
+            "n_drift": len(tv["drift"][:1]), "samples": [], "families": [case["fam"]], "contexts": [], "runs": runs,
+            "unobs": sorted({u for r in runs for u in r["final"].get("unobs", [])})}
 
 
 def selftest():
